@@ -4,7 +4,7 @@ import json
 from .. import gen
 from .. import universe as U
 from ..core import Result
-from ..histsim import HistoryProperty, gen_history
+from ..histsim import HistoryProperty, family_root, gen_history
 from ..world import World, global_state_guard
 
 
@@ -55,6 +55,11 @@ def _arg(frozen_kw, name):
     return None
 
 
+def by_root(spec, nid):
+    r = family_root(spec, nid)
+    return next(n for n in spec["nodes"] if n["id"] == r)
+
+
 class C02(HistoryProperty):
     ID = "C02"
     LEVEL = "exploration"
@@ -84,6 +89,9 @@ class C02(HistoryProperty):
 
     def gen_case(self, rng, tier):
         cfg = gen.swarm_cfg(rng, off=("alloptions", "shape_change", "dangling"), on=("dsclass",))
+        cfg["mutating_bodies"] = rng.random() < 0.4  # bodies that work in place on a section / list taken from the options
+        if cfg["mutating_bodies"]:
+            cfg["whole_section"] = cfg["lists"] = True
         spec = gen.prune(gen.gen_spec(rng, cfg))
         for n in spec["nodes"]:
             if n["k"] == "dataset" and n.get("cache", "default") == "default":
@@ -97,6 +105,18 @@ class C02(HistoryProperty):
         if cands and rng.random() < 0.35:
             for _ in range(rng.randint(1, 2)):
                 ops.insert(rng.randrange(1, len(ops) + 1), {"op": "add_effects", "ds": rng.choice(cands), "n": 1})
+        # ... and on ONE member of a family of derived datasets (with_options / with_default_options copy the list of
+        # effects at derivation): the other members keep theirs.  The family members are evaluated as roots.
+        fam = [n for n in spec["nodes"] if n["k"] == "derive" and by_root(spec, n["id"]).get("cache") == "recording"]
+        if fam and ops and rng.random() < 0.4:
+            d = rng.choice(fam)
+            members = [d["id"], family_root(spec, d["id"])]
+            spec["roots"] = list(dict.fromkeys(spec["roots"] + members))
+            at = rng.randrange(1, len(ops) + 1)
+            ops.insert(at, {"op": "add_effects", "ds": rng.choice(members), "n": 1})
+            for k in range(at + 1, len(ops) + 1):
+                if rng.random() < 0.5:
+                    ops.insert(k, dict(ops[k - 2] if "o" in ops[k - 2] else ops[0], op="evaluate", node=rng.choice(members), mut="family"))
         # registrations of an alias that NO dictionary ever selects, made between evaluations: they change nothing about
         # any evaluation of this history, so equivalent repeats must still be served from the cache
         disp = [n["id"] for n in spec["nodes"] if n["k"] == "dataset" and n.get("dispatch") is not None and n.get("cache") == "recording"]
@@ -143,6 +163,8 @@ class C02(HistoryProperty):
             w = World(spec)
             seen = set()
             checked_repeat = False
+            # effects of derived datasets: a copy of their origin's list, taken when they were derived (= program construction)
+            member_effects = {n["id"]: by_id[family_root(spec, n["id"])].get("effects", 0) for n in nodes if n["k"] == "derive"}
             for i, op in enumerate(case["ops"]):
                 if op["op"] == "register":
                     if op["ds"] in w.prog.obj and ("n" not in op["impl"] or op["impl"]["n"] in w.prog.obj):
@@ -153,7 +175,10 @@ class C02(HistoryProperty):
                     if op["ds"] in w.prog.obj:
                         w.do(op)
                         n = by_id[op["ds"]]
-                        n["effects"] = n.get("effects", 0) + op["n"]  # the model's effect count (by_name shares the node)
+                        if n["k"] == "derive":
+                            member_effects[op["ds"]] = member_effects[op["ds"]] + op["n"]
+                        else:
+                            n["effects"] = n.get("effects", 0) + op["n"]  # the model's effect count (by_name shares the node)
                         res.bump("effects_added_late")
                     continue
                 before = w.snapshot_counts()
@@ -177,7 +202,16 @@ class C02(HistoryProperty):
                     if twice:
                         res.violate("shared-dependency-ran-twice", op_index=i, node=op["node"], o=op["o"], bodies=twice)
                         break
-                v = self._check_effects(w, log_start, by_name, res)
+                # a family of derived datasets stores under one cache name but each member runs its OWN effects
+                accept = {}
+                for d, cnt in member_effects.items():
+                    root = by_id[family_root(spec, d)]
+                    accept.setdefault(root["name"], {root.get("effects", 0)}).add(cnt)
+                if op["node"] in member_effects:
+                    accept[by_id[family_root(spec, op["node"])]["name"]] = {member_effects[op["node"]]}
+                elif by_id[op["node"]]["k"] == "dataset" and by_id[op["node"]]["name"] in accept:
+                    accept[by_id[op["node"]]["name"]] = {by_id[op["node"]].get("effects", 0)}
+                v = self._check_effects(w, log_start, by_name, res, accept)
                 if v:
                     res.violate(v[0], op_index=i, node=op["node"], o=op["o"], **v[1])
                     break
@@ -190,7 +224,7 @@ class C02(HistoryProperty):
         return res
 
     @staticmethod
-    def _check_effects(w, log_start, by_name, res):
+    def _check_effects(w, log_start, by_name, res, accept=None):
         """Every store of D is preceded by one run of each of D's effects with the stored value; no other effect runs."""
         pending = {}  # dataset -> list of (effect index, value text)
         for ev in w.log.events[log_start:]:
@@ -205,11 +239,11 @@ class C02(HistoryProperty):
                 n = by_name.get(ds)
                 if n is None:
                     continue
-                want = n.get("effects", 0)
+                wants = (accept or {}).get(ds) or {n.get("effects", 0)}
                 got = pending.pop(ds, [])
                 res.bump("stores_checked")
-                if [i for i, _ in got] != list(range(want)):
-                    return "effects-not-once-per-store", {"dataset": ds, "effects_run": [i for i, _ in got], "expected": list(range(want))}
+                if not any([i for i, _ in got] == list(range(want)) for want in wants):
+                    return "effects-not-once-per-store", {"dataset": ds, "effects_run": [i for i, _ in got], "expected": [list(range(want)) for want in sorted(wants)]}
                 stored = repr(_arg(kw, "v"))
                 for i, val in got:
                     if val != stored:
